@@ -519,9 +519,15 @@ func (f *FrameV1) SetAppendixData(appendix []byte) error {
 		f.data = f.data[:origDataSize]
 		return errors.New("appendix data too big")
 
-	case len(appendix) > len(f.data)-f.appendixIndex:
+	case len(appendix) > len(f.data)-f.appendixIndex-f.requiredOverhead():
+		// Not enough space left (while keeping the required overhead margin):
+		// move frame to a bigger pooled slice.
 		f.data = f.data[:origDataSize]
-		return errors.New("not enough space for appendix")
+		if err := f.growForAppendix(len(appendix)); err != nil {
+			return err
+		}
+		f.data = f.data[:cap(f.data)]
+		fallthrough
 
 	default:
 		// Write new appendix.
@@ -533,6 +539,45 @@ func (f *FrameV1) SetAppendixData(appendix []byte) error {
 
 		return nil
 	}
+}
+
+// requiredOverhead returns the overhead margin that must be kept free after the frame.
+func (f *FrameV1) requiredOverhead() int {
+	if f.builder == nil || f.pooledSlice == nil {
+		return 0
+	}
+	_, overhead := f.builder.FrameMargins()
+	return overhead
+}
+
+// growForAppendix moves the frame to a bigger pooled slice that has enough
+// space for an appendix of the given size and the required overhead margin.
+func (f *FrameV1) growForAppendix(appendixSize int) error {
+	if f.builder == nil {
+		return errors.New("not enough space for appendix")
+	}
+
+	// Get new pooled slice.
+	_, overhead := f.builder.FrameMargins()
+	ps := f.builder.GetPooledSlice(f.psDataOffset + f.appendixIndex + appendixSize + overhead)
+	if ps == nil {
+		return errors.New("not enough space for appendix")
+	}
+
+	// Copy frame (without previous appendix) and switch to new pooled slice.
+	copy(ps[f.psDataOffset:], f.data[:f.appendixIndex])
+	dataSize := len(f.data)
+	if f.pooledSlice != nil {
+		f.builder.ReturnPooledSlice(f.pooledSlice)
+	}
+	f.pooledSlice = ps
+	f.data = ps[f.psDataOffset:]
+	if dataSize > f.appendixIndex {
+		dataSize = f.appendixIndex
+	}
+	f.data = f.data[:dataSize]
+
+	return nil
 }
 
 // FrameDataWithMargins returns the whole frame, including the given offset and overhead.
